@@ -1,6 +1,6 @@
 (** Comparators for C20 cases (no proofs): model vs implementation ([*_mismatch]) and the
     property acceptors of Decor/Monitor.v on what the implementation did ([*_violates]). *)
-From WM Require Import Base.Prelude Message.Model Handler.RouterHandle Decor.Model Decor.Heap Decor.Monitor.
+From WM Require Import Base.Prelude Message.Model Handler.RouterHandle Decor.Model Decor.Heap Decor.Monitor Decor.RouterMetrics Decor.MwStack.
 
 (** * publisher stacks *)
 Record pub_case := PubCase {
@@ -85,8 +85,6 @@ Definition sub_violates (c : sub_case) : bool :=
   negb (sub_monitor (sk_st c) (sk_heap c) (sk_ops c) (sk_seen c)).
 
 (** * handler middleware, alone or through a Router with AddPrometheusRouterMetrics *)
-Record rmsg := RMsg { rm_out : hout; rm_nouts : nat; rm_pub_ok : bool }.
-
 Record mw_case := MwCase {
   mk_layers : nat;                      (* how often the middleware / the whole metrics set was applied *)
   mk_router : bool;                     (* through a real Router (handler, subscriber and publisher metrics) *)
@@ -97,30 +95,23 @@ Record mw_case := MwCase {
   mk_ptab : list (plabel * nat)         (* publish_time_seconds *)
 }.
 
-Definition rm_chain (m : rmsg) : chain_result N :=
-  CR PreNone (match rm_out m with
-              | HOk => Ret (repeat 0%N (rm_nouts m))
-              | HErr => Fail []
-              | HPanic => Panic end).
-Definition rm_handle (m : rmsg) := handle PubReal (if rm_pub_ok m then PubAccept else PubError) (rm_chain m).
-
 Definition mw_calls (c : mw_case) : list (N * hout) := map (fun m => (mk_hname c, rm_out m)) (mk_msgs c).
 
 (** what the Router does with each message (C02 model) decides the subscriber and publisher metrics *)
 Definition router_sobs (c : mw_case) : list slabel :=
   if mk_router c && negb (Nat.eqb (mk_layers c) 0) then
-    map (fun m => (mk_hname c, mk_sname c, settle_eqb (st (fst (rm_handle m))) Acked)) (mk_msgs c)
+    flat_map (rm_sobs (mk_hname c) (mk_sname c)) (mk_msgs c)
   else [].
 Definition router_pobs (c : mw_case) : list plabel :=
   if mk_router c && negb (Nat.eqb (mk_layers c) 0) then
-    flat_map (fun m => flat_map (fun e => match e with
-                                          | HPublishRet ok => [(mk_hname c, mk_pname c, ok)]
-                                          | _ => [] end) (snd (rm_handle m))) (mk_msgs c)
+    flat_map (rm_pobs (mk_hname c) (mk_pname c)) (mk_msgs c)
   else [].
 
-(** mismatch against the model variant [fixed] *)
-Definition mw_mismatch (fixed : bool) (c : mw_case) : bool :=
-  negb (counts_agree hlabel_eqb (mk_htab c) (run_mw fixed (mk_layers c) (mw_calls c))
+(** mismatch against the model variant [fixed] (panic = failure) / [dedup] (an application inside
+    another one does not observe: k >= 1 applications count like one) *)
+Definition mw_mismatch (fixed dedup : bool) (c : mw_case) : bool :=
+  negb (counts_agree hlabel_eqb (mk_htab c)
+          (run_mw fixed (if dedup then Nat.min 1 (mk_layers c) else mk_layers c) (mw_calls c))
         && counts_agree slabel_eqb (mk_stab c) (router_sobs c)
         && counts_agree plabel_eqb (mk_ptab c) (router_pobs c)).
 
@@ -150,7 +141,21 @@ Definition c20_pub_violations (cs : list pub_case) : list nat := positions (map 
 Definition c20_sub_mismatches (cs : list sub_case) : list nat := positions (map sub_mismatch cs).
 Definition c20_sub_violations (cs : list sub_case) : list nat := positions (map sub_violates cs).
 Definition c20_sub_model_rejected (cs : list sub_case) : list nat := positions (map sub_model_rejected cs).
-Definition c20_mw_mismatches (fixed : bool) (cs : list mw_case) : list nat := positions (map (mw_mismatch fixed) cs).
+Definition c20_mw_mismatches (fixed dedup : bool) (cs : list mw_case) : list nat := positions (map (mw_mismatch fixed dedup) cs).
 Definition c20_mw_violations (cs : list mw_case) : list nat := positions (map mw_violates cs).
 Definition c20_delay_mismatches (cs : list delay_case) : list nat := positions (map delay_mismatch cs).
 Definition c20_delay_violations (cs : list delay_case) : list nat := positions (map delay_violates cs).
+
+(** * the middleware in handler chains with Retry (Decor/MwStack.v) *)
+Record mwstack_case := MwStackCase {
+  ms_st : list hlayer; ms_h : N; ms_top : nat; ms_script : list hout;
+  ms_tab : list (hlabel * nat)
+}.
+Definition mwstack_mismatch (dedup : bool) (c : mwstack_case) : bool :=
+  negb (counts_agree hlabel_eqb (ms_tab c) (hrun dedup (ms_st c) (ms_h c) (ms_top c) (ms_script c))).
+(** the property: counts as if the middleware had been applied once (inner applications removed) *)
+Definition mwstack_violates (c : mwstack_case) : bool :=
+  negb (counts_agree hlabel_eqb (ms_tab c)
+          (hrun false (erase_inner false (ms_st c)) (ms_h c) (ms_top c) (ms_script c))).
+Definition c20_mwstack_mismatches (dedup : bool) (cs : list mwstack_case) : list nat := positions (map (mwstack_mismatch dedup) cs).
+Definition c20_mwstack_violations (cs : list mwstack_case) : list nat := positions (map mwstack_violates cs).
